@@ -38,7 +38,7 @@ pub fn run(property: &str, tier: &str) -> i32 {
             // (a) positions x formatting
             let r1 = e1_posgraph::run(&rep, Focus::for_property("C03"));
             // (b) the search hands back only root successors, at every expiry point
-            let (points, queries, repeats) = expiry_sweep(&rep);
+            let (points, queries, repeats) = expiry_sweep_with(&rep, 2);
             // (c)(d) go parameters and go sequences on the real binary
             let (sessions, cmds) = crate::e4_session::c03_sessions(&rep, "C03");
             // (e) interleavings
@@ -101,6 +101,11 @@ pub fn run(property: &str, tier: &str) -> i32 {
 
 /// E2: every expiry index of every C07 root; returns (points, consultations, repeated runs)
 fn expiry_sweep(rep: &Report) -> (u64, u64, u64) {
+    expiry_sweep_with(rep, 0)
+}
+
+/// `fewer`: iterations to drop on the light roots (C03 only needs the hand-back clause, not depth)
+fn expiry_sweep_with(rep: &Report, fewer: u8) -> (u64, u64, u64) {
     use std::sync::atomic::Ordering::Relaxed;
     let h = crate::zobrist::ZobristHasher::create_zobrist_hasher();
     let roots = crate::e2_clockpoints::c07_roots(&h);
@@ -110,9 +115,9 @@ fn expiry_sweep(rep: &Report) -> (u64, u64, u64) {
         let pieces = r.pos.b.iter().filter(|x| **x != 0).count();
         match (quick, pieces > 10) {
             (true, true) => 2,
-            (true, false) => 4,
+            (true, false) => 5 - fewer,
             (false, true) => 3,
-            (false, false) => 5,
+            (false, false) => 6 - fewer,
         }
     };
     let stats = crate::e2_clockpoints::C07Stats { points: 0.into(), node_queries: 0.into(), repeats: 0.into(), info_lines: 0.into(), residual_zero_entries: 0.into(), answers_changed_by_expiry: 0.into() };
@@ -124,7 +129,7 @@ fn expiry_sweep(rep: &Report) -> (u64, u64, u64) {
     rep.add("distinct_outcomes_summed_over_roots", stats.answers_changed_by_expiry.load(Relaxed));
     rep.add("observation_zero_count_entries_left_in_record", stats.residual_zero_entries.load(Relaxed));
     rep.add("iterations_for_roots_with_more_than_10_pieces", if quick { 2 } else { 3 });
-    rep.add("iterations_for_other_roots", if quick { 4 } else { 5 });
+    rep.add("iterations_for_other_roots", (if quick { 5 } else { 6 }) - fewer as u64);
     rep.assume("the virtual clock (i-th consultation answers i >= k) is exact for a monotone real clock; out_of_time is the only place the engine reads time for decisions");
     (stats.points.load(Relaxed), stats.node_queries.load(Relaxed), stats.repeats.load(Relaxed))
 }
